@@ -31,6 +31,10 @@ impl Kwargs {
 pub struct Value { _p: () }
 impl Clone for Value { #[verifier::external_body] fn clone(&self) -> (r: Value) ensures r == *self { unimplemented!() } }
 impl Value {
+    #[verifier::external_body]
+    pub fn is_none(&self) -> (r: bool) ensures r == self.none_spec() { unimplemented!() }
+    #[verifier::external_body]
+    pub fn name(&self) -> &'static str { unimplemented!() }
     pub uninterp spec fn the_none() -> Value;
     pub uninterp spec fn none_spec(&self) -> bool;
     #[verifier::external_body]
@@ -132,3 +136,7 @@ pub open spec fn keyed_sorted(val: Seq<Value>, a: Seq<char>, out: Seq<Value>, pe
 }
 pub open spec fn sorted_by_key_stably(val: Seq<Value>, a: Seq<char>, out: Seq<Value>) -> bool { exists|perm: Seq<int>| #[trigger] keyed_sorted(val, a, out, perm) }
 pub open spec fn all_have_key(val: Seq<Value>, a: Seq<char>) -> bool { forall|i: int| 0 <= i < val.len() ==> path_spec(#[trigger] val[i], a) is Some }
+
+/// R19 at the call site: `a.partial_cmp(b)` on Values (Some iff comparable)
+#[verifier::external_body]
+pub fn vx_value_partial_cmp(a: &Value, b: &Value) -> (r: Option<core::cmp::Ordering>) ensures r is Some == comparable(*a, *b) { unimplemented!() }
